@@ -1,1 +1,2 @@
 LINK := small
+INCLUDED_SRCS := txrequest.cpp
